@@ -34,97 +34,106 @@ def analyze(kit):
     calls, metas = [], []
     key_dep = []
     for cfg in kit.configs():
-        env = kit.env(cfg)
-        e_obs, e_rew, e_dis, e_act = (specenc.enc_spec(s) for s in (env.observation_spec, env.reward_spec, env.discount_spec, env.action_spec))
-        k = int(np.prod(env.reward_spec.shape)) if env.reward_spec.shape else 1
-        # generate_value of the action spec: member + accepted by step
-        gv = env.action_spec.generate_value()
-        calls.append(("spec_validate_io", e_act + specenc.enc_value(gv)))
-        metas.append(("C01", "validate", dict(env=name, cfg=cfg["label"], what="action_spec.generate_value()", field="action")))
-        r01.count("generate_value-checked")
+        n_calls = len(calls)
         try:
-            s0, _ = jax.jit(env.reset)(jax.random.PRNGKey(kit.seed))
-            jax.jit(env.step)(s0, gv)
-            r01.evaluations += 1
-        except Exception as e:
-            kit.fail(["C01"], "step rejects action_spec.generate_value()", dict(cfg=cfg["label"], op="gen-accepted"), dict(err=repr(e)[:300]))
-        # ---- C10 (last sentence): random generators genuinely depend on the key.  Tiny grids can have a single possible
-        # instance, so the verdict is per ENVIRONMENT: some catalogued configuration must show two different instances.
-        if name not in CONSTANT_RESET and not any(w in cfg["label"] for w in ("toy", "dummy", "csv")):
-            import hashlib
-            import jax as _jax
-            _, st0, _, _, _, _ = kit.roll(cfg, 0.0)
-            seen = set()
-            for b in range(np.asarray(st0.key).shape[0]):
-                h = hashlib.sha1()
-                s_b = R.slice_tree(st0, b, 0)
-                for path, leaf in _jax.tree_util.tree_flatten_with_path(s_b)[0]:
-                    if "key" in _jax.tree_util.keystr(path):
-                        continue
-                    h.update(np.asarray(leaf).tobytes())
-                seen.add(h.hexdigest())
-            key_dep.append((cfg["label"], len(seen)))
-            kit.res["C10"].count("key-dependence:%s" % ("one-instance" if len(seen) < 2 else "several-instances"))
-        for p in (0.0, 0.35):
-            roll = kit.roll(cfg, p)
-            _, st, ts, ac, fl, k0 = roll
-            B, T1 = ts.step_type.shape[:2]
-            r01.traces += B
-            r03.traces += B
-            r11.traces += B
-            for b in range(B):
-                end = min(T1 - 1, fl[b])
-                kinds = set()
-                for t in range(T1):
-                    tsb = R.slice_tree(ts, b, t)
-                    ty = int(tsb.step_type)
-                    rew = np.asarray(tsb.reward, np.float64).reshape(-1)
-                    dis = np.asarray(tsb.discount, np.float64).reshape(-1)
-                    # ---- C03 on every step, also after LAST
-                    bad_d = [x for x in dis if x not in (0.0, 1.0)]
-                    dcode = [int(x) if x in (0.0, 1.0) else 7 for x in dis]
-                    rcode = [0 if x == 0 else 1 for x in rew]
-                    trunc_ok = int(name == "lbf" and cfg["time_limit"] is not None and int(getattr(R.slice_tree(st, b, t), "step_count", 0)) >= cfg["time_limit"])
-                    calls.append(("proto_check_io", [k, int(t == 0), trunc_ok, ty] + rcode + dcode))
-                    metas.append(("C03", "proto", dict(env=name, cfg=cfg["label"], p=p, b=b, t=t, step_type=ty, discount=dis.tolist(), after_last=bool(t > fl[b]))))
-                    r03.count("step_type:%d%s" % (ty, ":after-last" if t > fl[b] else ""))
-                    # ---- C01 up to and including the first LAST
-                    if t <= end or (t == fl[b]):
-                        calls.append(("spec_validate_io", e_obs + specenc.enc_value(tsb.observation)))
-                        metas.append(("C01", "validate", dict(env=name, cfg=cfg["label"], p=p, b=b, t=t, step_type=ty, field="observation")))
-                        calls.append(("spec_validate_io", e_rew + specenc.enc_value(tsb.reward)))
-                        metas.append(("C01", "validate", dict(env=name, cfg=cfg["label"], p=p, b=b, t=t, step_type=ty, field="reward")))
-                        calls.append(("spec_validate_io", e_dis + specenc.enc_value(tsb.discount)))
-                        metas.append(("C01", "validate", dict(env=name, cfg=cfg["label"], p=p, b=b, t=t, step_type=ty, field="discount")))
-                        kinds.add(ty)
-                        r01.count("validated:step_type:%d" % ty)
-                r01.distinct.add((name, cfg["label"], p, b))
-                r03.distinct.add((name, cfg["label"], p, b))
-            if len(r01.samples) < 2:
-                r01.samples.append(dict(env=name, cfg=cfg["label"], p=p, first_last=fl.tolist(), steps=T1 - 1))
-                r03.samples.append(dict(env=name, cfg=cfg["label"], p=p, step_types=np.asarray(ts.step_type[0]).tolist()))
-            # ---- C11
-            T = cfg["time_limit"]
-            if T is not None:
-                other = _other_cause(kit, cfg, p, roll)
+            env = kit.env(cfg)
+            e_obs, e_rew, e_dis, e_act = (specenc.enc_spec(s) for s in (env.observation_spec, env.reward_spec, env.discount_spec, env.action_spec))
+            k = int(np.prod(env.reward_spec.shape)) if env.reward_spec.shape else 1
+            # generate_value of the action spec: member + accepted by step
+            gv = env.action_spec.generate_value()
+            calls.append(("spec_validate_io", e_act + specenc.enc_value(gv)))
+            metas.append(("C01", "validate", dict(env=name, cfg=cfg["label"], what="action_spec.generate_value()", field="action")))
+            r01.count("generate_value-checked")
+            try:
+                s0, _ = jax.jit(env.reset)(jax.random.PRNGKey(kit.seed))
+                jax.jit(env.step)(s0, gv)
+                r01.evaluations += 1
+            except Exception as e:
+                kit.fail(["C01"], "step rejects action_spec.generate_value()", dict(cfg=cfg["label"], op="gen-accepted"), dict(err=repr(e)[:300]))
+            # ---- C10 (last sentence): random generators genuinely depend on the key.  Tiny grids can have a single possible
+            # instance, so the verdict is per ENVIRONMENT: some catalogued configuration must show two different instances.
+            if name not in CONSTANT_RESET and not any(w in cfg["label"] for w in ("toy", "dummy", "csv")):
+                import hashlib
+                import jax as _jax
+                _, st0, _, _, _, _ = kit.roll(cfg, 0.0)
+                seen = set()
+                for b in range(np.asarray(st0.key).shape[0]):
+                    h = hashlib.sha1()
+                    s_b = R.slice_tree(st0, b, 0)
+                    for path, leaf in _jax.tree_util.tree_flatten_with_path(s_b)[0]:
+                        if "key" in _jax.tree_util.keystr(path):
+                            continue
+                        h.update(np.asarray(leaf).tobytes())
+                    seen.add(h.hexdigest())
+                key_dep.append((cfg["label"], len(seen)))
+                kit.res["C10"].count("key-dependence:%s" % ("one-instance" if len(seen) < 2 else "several-instances"))
+            for p in (0.0, 0.35):
+                roll = kit.roll(cfg, p)
+                _, st, ts, ac, fl, k0 = roll
+                B, T1 = ts.step_type.shape[:2]
+                r01.traces += B
+                r03.traces += B
+                r11.traces += B
                 for b in range(B):
-                    types = [int(x) for x in np.asarray(ts.step_type[b, 1:])]
-                    n = min(len(types), int(fl[b]) if fl[b] < T1 else len(types))
-                    calls.append(("limit_check_io", [T, n] + types[:n] + [int(x) for x in other[b][:n]]))
-                    metas.append(("C11", "limit", dict(env=name, cfg=cfg["label"], p=p, b=b, time_limit=T, first_last=int(fl[b]), other=[int(x) for x in other[b][:n]][-3:])))
-                    r11.distinct.add((name, cfg["label"], p, b))
-                    r11.count("ends:%s" % ("at-limit" if fl[b] == T else "before-limit" if fl[b] < T else "never"))
-                if len(r11.samples) < 3:
-                    r11.samples.append(dict(env=name, cfg=cfg["label"], time_limit=T, first_last=fl.tolist()))
-            elif name in HORIZON:
-                H = int(HORIZON[name](env))
-                for b in range(B):
-                    r11.evaluations += 1
-                    r11.distinct.add((name, cfg["label"], p, b))
-                    if fl[b] > H and T1 - 1 >= H:
-                        kit.fail(["C11"], "episode still running after its structural horizon", dict(cfg=cfg["label"], op="horizon"),
-                                 dict(horizon=H, first_last=int(fl[b]), p=p, b=b, seed=kit.seed))
-                r11.count("horizon-checked", B)
+                    end = min(T1 - 1, fl[b])
+                    kinds = set()
+                    for t in range(T1):
+                        tsb = R.slice_tree(ts, b, t)
+                        ty = int(tsb.step_type)
+                        rew = np.asarray(tsb.reward, np.float64).reshape(-1)
+                        dis = np.asarray(tsb.discount, np.float64).reshape(-1)
+                        # ---- C03 on every step, also after LAST
+                        bad_d = [x for x in dis if x not in (0.0, 1.0)]
+                        dcode = [int(x) if x in (0.0, 1.0) else 7 for x in dis]
+                        rcode = [0 if x == 0 else 1 for x in rew]
+                        trunc_ok = int(name == "lbf" and cfg["time_limit"] is not None and int(getattr(R.slice_tree(st, b, t), "step_count", 0)) >= cfg["time_limit"])
+                        calls.append(("proto_check_io", [k, int(t == 0), trunc_ok, ty] + rcode + dcode))
+                        metas.append(("C03", "proto", dict(env=name, cfg=cfg["label"], p=p, b=b, t=t, step_type=ty, discount=dis.tolist(), after_last=bool(t > fl[b]))))
+                        r03.count("step_type:%d%s" % (ty, ":after-last" if t > fl[b] else ""))
+                        # ---- C01 up to and including the first LAST
+                        if t <= end or (t == fl[b]):
+                            calls.append(("spec_validate_io", e_obs + specenc.enc_value(tsb.observation)))
+                            metas.append(("C01", "validate", dict(env=name, cfg=cfg["label"], p=p, b=b, t=t, step_type=ty, field="observation")))
+                            calls.append(("spec_validate_io", e_rew + specenc.enc_value(tsb.reward)))
+                            metas.append(("C01", "validate", dict(env=name, cfg=cfg["label"], p=p, b=b, t=t, step_type=ty, field="reward")))
+                            calls.append(("spec_validate_io", e_dis + specenc.enc_value(tsb.discount)))
+                            metas.append(("C01", "validate", dict(env=name, cfg=cfg["label"], p=p, b=b, t=t, step_type=ty, field="discount")))
+                            kinds.add(ty)
+                            r01.count("validated:step_type:%d" % ty)
+                    r01.distinct.add((name, cfg["label"], p, b))
+                    r03.distinct.add((name, cfg["label"], p, b))
+                if len(r01.samples) < 2:
+                    r01.samples.append(dict(env=name, cfg=cfg["label"], p=p, first_last=fl.tolist(), steps=T1 - 1))
+                    r03.samples.append(dict(env=name, cfg=cfg["label"], p=p, step_types=np.asarray(ts.step_type[0]).tolist()))
+                # ---- C11
+                T = cfg["time_limit"]
+                if T is not None:
+                    other = _other_cause(kit, cfg, p, roll)
+                    for b in range(B):
+                        types = [int(x) for x in np.asarray(ts.step_type[b, 1:])]
+                        n = min(len(types), int(fl[b]) if fl[b] < T1 else len(types))
+                        calls.append(("limit_check_io", [T, n] + types[:n] + [int(x) for x in other[b][:n]]))
+                        metas.append(("C11", "limit", dict(env=name, cfg=cfg["label"], p=p, b=b, time_limit=T, first_last=int(fl[b]), other=[int(x) for x in other[b][:n]][-3:])))
+                        r11.distinct.add((name, cfg["label"], p, b))
+                        r11.count("ends:%s" % ("at-limit" if fl[b] == T else "before-limit" if fl[b] < T else "never"))
+                    if len(r11.samples) < 3:
+                        r11.samples.append(dict(env=name, cfg=cfg["label"], time_limit=T, first_last=fl.tolist()))
+                elif name in HORIZON:
+                    H = int(HORIZON[name](env))
+                    for b in range(B):
+                        r11.evaluations += 1
+                        r11.distinct.add((name, cfg["label"], p, b))
+                        if fl[b] > H and T1 - 1 >= H:
+                            kit.fail(["C11"], "episode still running after its structural horizon", dict(cfg=cfg["label"], op="horizon"),
+                                     dict(horizon=H, first_last=int(fl[b]), p=p, b=b, seed=kit.seed))
+                    r11.count("horizon-checked", B)
+        except Exception:
+            # one configuration that raises (e.g. reset rejects it) is reported for THAT configuration; the others are still analysed
+            import traceback as _tb
+            del calls[n_calls:], metas[n_calls:]
+            for p_ in PROPS:
+                kit.res[p_].fail("%s: reset / step / rollout raised on configuration %s" % (name, cfg["label"]),
+                                 dict(env=name, cfg=cfg["label"], op="config-raised"), dict(trace=_tb.format_exc()[-1500:], seed=kit.seed))
     if key_dep:
         kit.res["C10"].evaluations += 1
         kit.res["C10"].distinct.add((name, "key-dependence"))
